@@ -103,10 +103,12 @@ func (s *supervision) run() {
 			// notifyParent suspends on the first signal and any later in-flight signal
 			// is skipped here.
 			verifhook.At("sup.take", work.pid, 0, 0)
+			verifhook.At("sup.work", &work.pid.schedState, 0, 0)
 			if work.pid.IsRunning() {
 				work.pid.notifyParent(work.signal)
 			}
 			verifhook.At("sup.done", work.pid, 0, 0)
+			verifhook.At("sup.done", &work.pid.schedState, 0, 0)
 		case <-s.stopCh:
 			return
 		}
